@@ -36,6 +36,64 @@ theorem key_zero (F : Fmt) : F.key 0 = 0 := by
 
 theorem key_eq_zero_iff (F : Fmt) (x : Nat) : F.key x = 0 ↔ F.abs x = 0 := by
   unfold Fmt.key; cases F.sign x <;> simp
+
+/-! ### the comparisons of the constant-evaluated fmod / remainder ladder -/
+theorem isNaN_inf (hE : 3 ≤ F.ebits) : F.isNaN F.inf = false := by
+  unfold Fmt.isNaN; rw [abs_of_lt F _ (inf_lt_signBit F hE)]; simp
+theorem key_inf (hE : 3 ≤ F.ebits) : F.key F.inf = (F.inf : Int) := by
+  unfold Fmt.key; rw [sign_of_lt F _ (inf_lt_signBit F hE), abs_of_lt F _ (inf_lt_signBit F hE)]; simp
+theorem negInf_eq : Model.negInf F = F.withSign true F.inf := by
+  unfold Model.negInf Fmt.withSign; simp
+theorem isNaN_negInf (hE : 3 ≤ F.ebits) : F.isNaN (Model.negInf F) = false := by
+  unfold Fmt.isNaN; rw [negInf_eq, abs_withSign F _ _ (inf_lt_signBit F hE)]; simp
+theorem key_negInf (hE : 3 ≤ F.ebits) : F.key (Model.negInf F) = -(F.inf : Int) := by
+  rw [negInf_eq, key_withSign F _ _ (inf_lt_signBit F hE)]; simp
+
+/-- `x == inf or x == -inf` (C comparisons) holds exactly for the two infinite patterns -/
+theorem eq_inf_or (hE : 3 ≤ F.ebits) (x : Nat) :
+    (Model.eq F x F.inf || Model.eq F x (Model.negInf F)) = F.isInf x := by
+  have h0 := zero_lt_inf F hE
+  unfold Model.eq
+  rw [isNaN_inf F hE, isNaN_negInf F hE, key_inf F hE, key_negInf F hE]
+  unfold Fmt.isNaN Fmt.isInf Fmt.key
+  cases hs : F.sign x <;> simp only [Bool.false_eq_true, if_false, if_true, Bool.not_false, Bool.and_true]
+  · by_cases h : F.abs x = F.inf
+    · simp [h]
+    · have h1 : ¬ ((F.abs x : Int) = (F.inf : Int)) := by omega
+      have h2 : ¬ ((F.abs x : Int) = -(F.inf : Int)) := by omega
+      simp [h, h1, h2]
+  · by_cases h : F.abs x = F.inf
+    · simp [h]
+    · have h1 : ¬ (-(F.abs x : Int) = (F.inf : Int)) := by omega
+      have h2 : ¬ (-(F.abs x : Int) = -(F.inf : Int)) := by omega
+      simp [h, h1, h2]
+
+/-- `y == T(0)` holds exactly for the two zero patterns -/
+theorem eq_zero_isZero (hE : 3 ≤ F.ebits) (y : Nat) : Model.eq F y 0 = F.isZero y := by
+  have h0 := zero_lt_inf F hE
+  unfold Model.eq
+  rw [isNaN_zero, key_zero]
+  unfold Fmt.isNaN Fmt.isZero
+  by_cases h : F.abs y = 0
+  · have := (key_eq_zero_iff F y).2 h
+    simp [h, this]
+  · have : ¬ F.key y = 0 := fun hk => h ((key_eq_zero_iff F y).1 hk)
+    simp [h, this]
+
+theorem divInvalid_eq (hE : 3 ≤ F.ebits) (x y : Nat) :
+    Model.divInvalid F x y = (F.isNaN x || F.isNaN y || F.isInf x || F.isZero y) := by
+  unfold Model.divInvalid
+  rw [← eq_inf_or F hE x, ← eq_zero_isZero F hE y]
+  simp only [Bool.or_assoc]
+theorem divisorInf_eq (hE : 3 ≤ F.ebits) (y : Nat) : Model.divisorInf F y = F.isInf y := eq_inf_or F hE y
 end Fmt
+
+/-! ### definitional re-statements (`rfl`: the model is the same term as the spec) — bookkeeping, not obligations -/
+/-- signbit.hpp `signbit_fallback` (never selected under GCC: `etl::signbit` takes `__builtin_signbit` on both paths) -/
+theorem signbitFallback_eq (F : Fmt) (x : Nat) : Model.signbitFallback F x = F.signbit x := rfl
+theorem fmin_model_eq (F : Fmt) (x y : Nat) : Model.fmin F x y = F.fmin x y := by
+  unfold Model.fmin Fmt.fmin Model.canon Model.lt; rfl
+theorem fmax_model_eq (F : Fmt) (x y : Nat) : Model.fmax F x y = F.fmax x y := by
+  unfold Model.fmax Fmt.fmax Model.canon Model.lt; rfl
 
 end Tetl.C16
